@@ -1,6 +1,6 @@
 /* C10 model driver stubs: the decompressor oracle of the extracted model, bound to the
  * *system* codec libraries with the calling conventions of lib/sqfs/src/comp/{gzip,xz,lz4,zstd}.c
- * (uncompress direction).  Returns (ret, output bytes) with ret as do_block would return it. */
+ * (uncompress direction).  Returns (ret, whole output buffer) with ret as do_block would return it. */
 #include <caml/mlvalues.h>
 #include <caml/alloc.h>
 #include <caml/memory.h>
@@ -62,11 +62,12 @@ CAMLprim value c10_uncompress(value vid, value vin, value voutsize)
 	CAMLparam3(vid, vin, voutsize);
 	CAMLlocal2(res, bytes);
 	size_t outsize = Long_val(voutsize), n = caml_string_length(vin);
-	unsigned char *out = malloc(outsize + 1);
+	/* the whole output buffer is returned: zero-filled first (the library callocs its block buffers),
+	   so bytes behind ret are what the codec left there */
+	unsigned char *out = calloc(1, outsize + 1);
 	long ret = do_uncompress(Int_val(vid), (const unsigned char *)String_val(vin), n, out, outsize);
-	size_t k = ret > 0 ? (size_t)ret : 0;
-	bytes = caml_alloc_string(k);
-	memcpy(Bytes_val(bytes), out, k);
+	bytes = caml_alloc_string(outsize);
+	memcpy(Bytes_val(bytes), out, outsize);
 	free(out);
 	res = caml_alloc_tuple(2);
 	Store_field(res, 0, Val_long(ret));
